@@ -7,5 +7,14 @@ sys.path.insert(0, os.path.dirname(os.path.abspath(__file__)))
 sys.dont_write_bytecode = True
 from bitsim import runner  # noqa: E402
 
+# A change under test may turn a call into an allocation bomb: cap the address space of this process and of the
+# workers forked from it, so that it ends in a MemoryError inside the call instead of exhausting the machine.
+try:
+    import resource
+    _lim = int(os.environ.get('BITSIM_AS_LIMIT_GB', '6')) << 30
+    resource.setrlimit(resource.RLIMIT_AS, (_lim, _lim))
+except (ImportError, ValueError, OSError):
+    pass
+
 if __name__ == '__main__':
     sys.exit(runner.main())
